@@ -221,6 +221,17 @@ theorem padTo_kwargs_eq (pt : PT) (padDur : Expr) (finals : List (Chan × Expr))
 theorem padTo_concat (pt : PT) (padDur : Expr) (finals : List (Chan × Expr)) :
     padTo pt padDur finals false none = concatenate [pt, .const none padDur finals []] none [] [] := rfl
 
+/-- `RepetitionPT(body, c, constraints).with_repetition(k)` — the merged template with count `c * k` — denotes
+exactly the pulse of the explicit nesting whenever both counts evaluate to natural numbers and the constraints
+hold (`_partial`: see the counterexample below for negative counts) -/
+theorem withRepetition_merge_denote_partial (body : PT) (c k : Expr) (cons : List Expr) (σ : Scope)
+    (mm : List (MName × Option MName)) (cm : List (Chan × Option Chan)) (n m : Nat)
+    (hcons : validateCons cons σ.look = .ok ())
+    (hc : σ.eval c = .ok (n : Rat)) (hk : σ.eval k = .ok (m : Rat)) :
+    denote (withRepetition (.rep none body c [] cons) k) σ mm cm =
+      denote (withRepetitionExplicit (.rep none body c [] cons) k) σ mm cm :=
+  withRepetition_merge_denote body c k cons σ mm cm n m hcons hc hk
+
 /-- PF-27: merging the counts in `RepetitionPT.with_repetition` is wrong when both counts are negative
 (n = -2, k = -3: the merged template lasts 6, the explicit nesting is empty) -/
 theorem withRepetition_merge_counterexample :
